@@ -261,6 +261,27 @@ fn boundaries<C: Cm>(s: &SeqSpec) -> PResult {
         ensure!(!(a == &b[..]) && !(&b[..] == a), format!("boundary_mixed_eq/{n}"), "Seq == &SeqSlice holds for {what}");
         tried += 1;
     }
+    // the same window of two parents (equal bit phase on both sides): every position of the first and
+    // last two words, and the block boundaries
+    if let Built::Window { parent, lo, hi } = &built {
+        let per = (64 / sy.bits()).max(1);
+        let mut ps: Vec<usize> = (0..len.min(2 * per + 2)).chain(len.saturating_sub(2 * per + 2)..len).collect();
+        ps.extend(gen::boundary_positions(len, sy.bits()));
+        ps.sort();
+        ps.dedup();
+        for p in ps {
+            let old = s.codes[p];
+            let i = codes.iter().position(|c| *c == old).unwrap_or(0);
+            let new = codes[(i + 1) % codes.len()];
+            if new == old {
+                continue;
+            }
+            let other = gen::with_symbol(parent, lo + p, sy.sym(new));
+            let (x, y) = (&parent[*lo..*hi], &other[*lo..*hi]);
+            ensure!(!(x == y) && !(y == x) && x != y, format!("boundary_same_phase_eq/{n}"), "two {len}-symbol windows starting {lo} symbols into their parents and differing only at symbol {p} compare equal");
+            tried += 1;
+        }
+    }
     // and the unchanged copy is equal
     let same = gen::with_symbol(&a, len / 2, sy.sym(s.codes[len / 2]));
     ensure!(a == same && built.slice() == &same[..], format!("boundary_equal/{n}"), "a rebuilt copy of a {len}-symbol sequence is not equal to it");
@@ -458,7 +479,14 @@ pub fn run(ctx: &mut Ctx) {
         ctx.forall_lens(
             &format!("pairs_long_edges/{}", id.name()),
             &lens,
-            |n| (gen::seq_spec_n(id, n), any::<bool>(), any::<u8>(), any::<u8>()).prop_map(move |(a, from_end, off, sym)| Case { codec: id, b_repr: a.repr.clone(), a, rel: Rel::SubstEdge { from_end, off, sym } }),
+            |n| {
+                (gen::seq_spec_n(id, n), gen::pre_flank(m), any::<bool>(), any::<bool>(), prop_oneof![3 => 0..40u8, 1 => any::<u8>()], any::<u8>()).prop_map(move |(mut a, pre, window, from_end, off, sym)| {
+                    if window && !pre.is_empty() {
+                        a.repr = Repr::Slice { pre, post: vec![] };
+                    }
+                    Case { codec: id, b_repr: a.repr.clone(), a, rel: Rel::SubstEdge { from_end, off, sym } }
+                })
+            },
             dispatch,
         );
         let mut big: Vec<usize> = lens.iter().copied().filter(|n| n * id.bits() >= 4096).collect();
@@ -467,7 +495,14 @@ pub fn run(ctx: &mut Ctx) {
         ctx.forall_lens(
             &format!("pairs_long_boundaries/{}", id.name()),
             &big,
-            |n| gen::seq_spec_n(id, n).prop_map(move |a| Case { codec: id, b_repr: Repr::Collect, a, rel: Rel::Identical }),
+            |n| {
+                (gen::seq_spec_n(id, n), gen::pre_flank(m), any::<bool>()).prop_map(move |(mut a, pre, window)| {
+                    if window && !pre.is_empty() {
+                        a.repr = Repr::Slice { pre, post: vec![] };
+                    }
+                    Case { codec: id, b_repr: Repr::Collect, a, rel: Rel::Identical }
+                })
+            },
             boundaries_dispatch,
         );
     }
